@@ -1,6 +1,7 @@
 import SoxrModel.Properties.C03
 import SoxrModel.Properties.C15
 import SoxrModel.Phase.Bridge
+import SoxrModel.Phase.Generated
 /-!
 # C14 The phase setting changes phase only
 
@@ -170,6 +171,34 @@ theorem transformed_length_mod4 {α : Type} (cep : Cep α) (d n : Nat) (h : (cep
 
 example : (exCep.sel (fold 1 25)).len % 4 = 1 ∧ (firToPhaseAt exCep 1 25).taps.length = 33 := by decide
 
+/-- **Mirror settings give mirror plans.**  For `p` and `100 - p` (same `L`, `M`, design, and hence the same
+    `set_dft_length` answer, since the transformed lengths are equal): the same `num_taps`, `dft_length`, `block_len` —
+    so the same output-side bookkeeping and the same status of the block-alignment clause — and mirrored latency:
+    `post_peak(p) + post_peak(100 - p) = num_taps - 1`. -/
+theorem mirror_plans {α : Type} (base : DftIn) (cep : Cep α) (d n : Nat) (h : n ≤ 100 * d) (hne : n ≠ 50 * d)
+    (h0 : 0 ≤ (firToPhaseAt cep d n).postLen) (h1 : 0 ≤ (firToPhaseAt cep d (100 * d - n)).postLen) :
+    let a := dftStageInit (dftInOf base cep d n)
+    let b := dftStageInit (dftInOf base cep d (100 * d - n))
+    a.numTaps = b.numTaps ∧ a.blockLen = b.blockLen ∧ a.postPeak + b.postPeak + 1 = a.numTaps ∧
+    (FDomainOK a ↔ FDomainOK b) := by
+  intro a b
+  obtain ⟨mt, mp⟩ := mirror cep d n h hne
+  have hlen : (firToPhaseAt cep d (100 * d - n)).taps.length = (firToPhaseAt cep d n).taps.length := by rw [mt]; simp
+  have ha : a.numTaps = (firToPhaseAt cep d n).taps.length := (dft_nonlin _ rfl).1
+  have hb : b.numTaps = (firToPhaseAt cep d (100 * d - n)).taps.length := (dft_nonlin _ rfl).1
+  have hap : a.postPeak = (firToPhaseAt cep d n).postLen.toNat := (dft_nonlin _ rfl).2.1
+  have hbp : b.postPeak = (firToPhaseAt cep d (100 * d - n)).postLen.toNat := (dft_nonlin _ rfl).2.1
+  have hnt : a.numTaps = b.numTaps := by rw [ha, hb, hlen]
+  have hbl : a.blockLen = b.blockLen := by
+    rw [dft_blockLen, dft_blockLen, hnt]; rfl
+  refine ⟨hnt, hbl, ?_, ?_⟩
+  · rw [hap, hbp, ha]
+    omega
+  · unfold FDomainOK; rw [hbl]; exact Iff.rfl
+
+example : let a := dftStageInit (dftInOf exMin exCep 1 25); let b := dftStageInit (dftInOf exMin exCep 1 75)
+    a.numTaps = 33 ∧ b.numTaps = 33 ∧ a.postPeak = 20 ∧ b.postPeak = 12 := by decide
+
 /-! ## (c) `lsx_make_lpf` -/
 
 /-- **The designed low-pass is symmetric**: every tap is written and tap `j` is the value computed for
@@ -264,6 +293,21 @@ theorem fdomain_rate_exact_iff (L bl clk : Nat) (hL : 0 < L) (hc : clk < L) : L 
   fd_rate_exact_iff L bl clk hL hc
 
 example : 32 * fdQuot 32 1668 1 = 1696 ∧ 32 * fdQuot 32 1664 0 = 1664 := by decide
+
+/-! ## (e) generated constants of the working tree (`harness/phase/gen.c` → `Phase/Generated.lean`, regenerated on every run) -/
+
+/-- **The recipe's phase bits**: `SOXR_LINEAR_PHASE` selects the linear branch, `SOXR_INTERMEDIATE_PHASE` the intermediate
+    one, `SOXR_MINIMUM_PHASE` the minimum-phase branch, and the undocumented code 2 is its mirror setting (maximum phase):
+    same folded phase, opposite reading direction. -/
+theorem recipe_phase_bits :
+    (Generated.recipePhase[Generated.codeLinear]?).map (cls 1) = some .lin ∧
+    (Generated.recipePhase[Generated.codeIntermediate]?).map (cls 1) = some .mid ∧
+    (Generated.recipePhase[Generated.codeMinimum]?).map (cls 1) = some .min ∧
+    (Generated.recipePhase[Generated.codeMinimum]?).map (fun p => 100 * 1 - p) = Generated.recipePhase[2]? ∧
+    Generated.recipePhase.all (· ≤ 100) = true := by decide
+
+/-- **`isPow2L` is the C macro `lsx_is_power_of_2`** on `0 … 130` (beyond: the correspondence of `checks/c14.py`). -/
+theorem isPow2L_matches_macro : (List.range 131).map isPow2L = Generated.pow2Table := by decide
 
 /-! ## not carried by Lean (measured by the falsifier of `checks/c14.py`) -/
 
